@@ -14,7 +14,7 @@ RULE = ("seeded frames with 1-3 partition columns over int/float/bool/timestamp/
 ASSUMPTIONS = ["rows with a null partition key are documented as dropped and are excluded from the expectation",
                "reading one part file's rid column with fastparquet itself is trusted (tied to the input by C01)",
                "for the drill layout only placement, no loss/duplication and constant dirN columns are demanded"]
-CASE_TIMEOUT = 240
+CASE_TIMEOUT = 120
 
 from vf.gen import datasets as D
 from vf.gen import frames as F
@@ -61,6 +61,25 @@ def gen_cases(tier, seed):
                                                      {"name": "p0", "kind": pk, "card": card, "off": k}], "index": {"kind": "dup"}},
                                   "opts": {"file_scheme": scheme, "partition_on": ["p0"], "row_group_offsets": [0, 21], "write_index": False},
                                   "page_size": None, "dpv": 1})
+    # datasets whose part numbers reach two digits (one write split into many chunks, or many successive appends), then appended to:
+    # every stored row must still sit in its directory exactly once
+    k = 0
+    for scheme in ("hive", "drill"):
+        for pk in ("pint", "pstr", "pstr_num"):
+            for nchunk, nappend in ((12, 1), (3, 11), (10, 2), (25, 3)):
+                k += 1
+                if tier == "quick" and k % 2:
+                    continue
+                fr = {"seed": 4800 + k, "nrows": 2 * nchunk, "cols": [{"name": "rid", "kind": "rid"}, {"name": "v0", "kind": "int64", "nulls": "none"},
+                                                                      {"name": "p0", "kind": pk, "card": 2, "off": k}], "index": None}
+                apps = []
+                rid0 = fr["nrows"]
+                for j in range(nappend):
+                    a = dict(fr, seed=4900 + 17 * k + j, nrows=4, rid0=rid0)
+                    rid0 += 4
+                    apps.append(a)
+                cases.append({"id": "MA/%s/%s/%d/%d" % (pk, scheme, nchunk, nappend), "frame": fr, "appends": apps,
+                              "opts": {"file_scheme": scheme, "partition_on": ["p0"], "row_group_offsets": 2}, "page_size": None, "dpv": 1})
     return cases
 
 
@@ -128,6 +147,19 @@ def run_case(case):
                 counters["write_rejected"] = 1
                 counters["reject:" + type(e).__name__] = 1
                 return res
+            for a in case.get("appends") or []:
+                dfa = D.build_dataset_frame({"frame": a})
+                try:
+                    fastparquet.write(path, dfa, append=True, **C.write_kwargs(opts))
+                except Exception as e:
+                    if scheme == "drill" and isinstance(e, ValueError) and "Requested file scheme is drill" in str(e):
+                        # a refusal (C07's open finding): nothing was stored, so nothing can be misplaced
+                        counters["drill_append_refused"] = counters.get("drill_append_refused", 0) + 1
+                        break
+                    res["failures"].append({"kind": "append_to_partitioned_dataset_raised", "parts_before": sum(len(f_) for _, _, f_ in os.walk(path)), **C.exc_shape(e)})
+                    break
+                df = pd.concat([df, dfa], ignore_index=True)
+                counters["appends_to_datasets_with_many_parts"] = counters.get("appends_to_datasets_with_many_parts", 0) + 1
         keyed = df.dropna(subset=pcols) if len(df) else df
         # expected directory per rid
         for p in pcols:
@@ -265,4 +297,4 @@ def _features(case, keyed, df):
 
 
 def required(tier):
-    return {"rows_placed": 5000, "part_files_checked": 1000, "partition_values_compared": 3000, "drill_values_compared": 1000}
+    return {"rows_placed": 5000, "part_files_checked": 1000, "partition_values_compared": 3000, "drill_values_compared": 1000, "appends_to_datasets_with_many_parts": 15}
